@@ -32,16 +32,20 @@ import (
 	"verif/tool/siminstr"
 )
 
-const (
-	repoDir  = "/repo"
-	goBinDir = "/opt/veriftools/go1.26.8/bin"
-)
+const goBinDir = "/opt/veriftools/go1.26.8/bin"
+
+// repoDir is the tree under test: /repo, unless VERIF_REPO points at a snapshot of it (background
+// sweeps started with `vp run --with-repo`, so that edits to /repo meanwhile do not leak into them).
+var repoDir = "/repo"
 
 // verifDir is the root of the verification tree this binary belongs to: <verifDir>/bin/check. A
 // snapshot of /verif (vp run) therefore uses its own sim/, writes its own evidence/ and replays/.
 var verifDir = "/verif"
 
 func init() {
+	if v := os.Getenv("VERIF_REPO"); v != "" {
+		repoDir = v
+	}
 	if v := os.Getenv("VERIF_DIR"); v != "" {
 		verifDir = v
 		return
